@@ -178,9 +178,11 @@ def generate(st):
                 del todays[q['name']]          # the caller relies on the parameter's own default today
         op_ = {'op': 'call', 'inputs': todays, 'expiry': expiry, 'data': data, 'loss': loss, 'also_join': g.random() < 0.3,
                'scalar_feedback': g.random() < 0.4}
+        if cfg['faulty'] and cfg['dict_output'] and f.random() < 0.2:
+            op_['loss_aux'] = True
         if cfg['faulty'] and f.random() < 0.08:
             op_['raise_at'] = f.choice([1, 1, 2, 3])
-            op_['exc'] = f.choice(['sim', 'sim', 'stop'])      # StopIteration is an exception too (next() on an exhausted iterator)
+            op_['exc'] = f.choice(['sim', 'sim', 'stop', 'key'])      # StopIteration is an exception too (next() on an exhausted iterator)
         ops.append(op_)
         # the generator cannot know the join result without the model; approximate prev_keys by all table keys
         prev_keys = cand
@@ -302,7 +304,7 @@ def _make_f(params, ledger, dict_output=False, arm=None):
     src = ("def f(%s):\n"
            "    args = {%s}\n"
            "    ledger.append(dict(args))\n"
-           "    if arm and arm[0] == len(ledger): raise (StopIteration() if len(arm) > 1 and arm[1] == 'stop' else SimFError('injected at evaluation %%d' %% len(ledger)))\n"
+           "    if arm and arm[0] == len(ledger): raise (StopIteration() if len(arm) > 1 and arm[1] == 'stop' else KeyError('injected') if len(arm) > 1 and arm[1] == 'key' else SimFError('injected at evaluation %%d' %% len(ledger)))\n"
            "    return 'v#%%d:%%s' %% (len(ledger), '|'.join('%%s=%%r' %% (k, args[k]) for k in sorted(args)))\n") % (sig, body)
     ns = {'ledger': ledger, 'arm': arm, 'SimFError': SimFError}
     exec(src, ns)
@@ -453,6 +455,7 @@ def execute(trace, ctx=None):
                         raise Violation('join-altered-input', 'join changed its input table %s' % nm, k)
             # ---- previously computed data
             supplied = {}
+            data_keys = []
             data_mode = op.get('data', 'omit')
             if has_table and data_mode == 'prev' and prev_table is not None and prev is not None:
                 loss = [tuple(x) for x in op.get('loss', [])]
@@ -460,8 +463,14 @@ def execute(trace, ctx=None):
                 if len(keep) < len(prev):
                     res.fault('state_loss')
                 supplied = {kt: prev[kt] for kt in keep}
+                data_keys = list(keep)
                 call[col] = table(on, [list(kt) for kt in keep], col, [prev[kt] for kt in keep])
-                if dict_mode:
+                if dict_mode and op.get('loss_aux'):
+                    # only ONE of the two previous outputs survived: no row has a complete previous value any more
+                    res.fault('state_loss')
+                    res.probe('one-of-two-previous-outputs-lost')
+                    supplied = {}
+                elif dict_mode:
                     call['aux'] = table(on, [list(kt) for kt in keep], 'aux', ['A' + prev[kt] if isinstance(prev[kt], str) else prev[kt] for kt in keep])
             elif has_table and data_mode == 'none':
                 call[col] = None
@@ -502,7 +511,7 @@ def execute(trace, ctx=None):
             # statement does not say whether they should, so such calls are not made
             if mrows is not None and not any(v[0] == 'table' and nm not in jdefaults for nm, v in minputs.items()):
                 present = {tuple(kd[c] for c in on) for kd, _ in mrows}
-                if any(kt not in present for kt in list(supplied) + list(exp_map)):
+                if any(kt not in present for kt in list(data_keys) + list(exp_map)):
                     res.stat('skipped-ambiguous-key-set')
                     continue
             if not has_table and op.get('scalar_feedback'):
@@ -540,6 +549,10 @@ def execute(trace, ctx=None):
                             if args == failing_args or kt not in byk or col not in byk[kt]:
                                 continue
                             gotv = byk[kt][col]
+                            e_ = exp_map.get(kt, exp_scalar)
+                            if e_ is not None and e_ < today and kt in supplied and gotv != supplied[kt]:
+                                raise Violation('frozen-row-changed', 'key %s: f failed on another row and the failure was swallowed; this row had a previous value %r with expiry %s < today and now holds %r'
+                                                % (kt, supplied[kt], e_, gotv), k)
                             if isinstance(gotv, str) and gotv.startswith('v#') and gotv.split(':', 1)[1] != _fmt_args(args) and gotv != supplied.get(kt):
                                 raise Violation('row-value', 'key %s: after f failed on another row the result holds %r, which is f of other inputs (expected f(%s))'
                                                 % (kt, gotv, _fmt_args(args)), k)
@@ -778,7 +791,7 @@ def signature(trace, violation):
 
 
 PROBES = ['row-frozen', 'row-recomputed-over-previous-value', 'state-loss-recompute', 'clock-at-midnight-edge', 'default-extends-or-fills',
-          'scalar-only-call', 'empty-join', 'dict-output-call', 'join-called-directly', 'scalar-call-with-previous-output', 'input-keyed-by-a-subset-of-the-keys', 'unmatched-key-keeps-None-in-a-key-column', 'expiry-equals-today(either outcome accepted)', 'call-after-backward-jump',
+          'scalar-only-call', 'empty-join', 'dict-output-call', 'join-called-directly', 'scalar-call-with-previous-output', 'input-keyed-by-a-subset-of-the-keys', 'one-of-two-previous-outputs-lost', 'unmatched-key-keeps-None-in-a-key-column', 'expiry-equals-today(either outcome accepted)', 'call-after-backward-jump',
           'expired-without-previous-value-recomputed']
 TIERS = {'quick': {'runs': 12000, 'wallcap': 50}, 'thorough': {'runs': 500000, 'wallcap': 800}}
 COMPONENTS = {
